@@ -282,6 +282,23 @@ def queries(draw, d, version, rich=False):
                 for (p, rc) in picks:
                     g.resources[rc] = _amount_for(draw, w, rc, True, {p})
                 collective = {p for p, _rc in picks}
+        if hit and inv_pairs and draw(st.integers(0, 9)) == 0:
+            # "split" request: every class fits on SOME provider, but the
+            # providers are drawn from anywhere (often no single tree offers
+            # them all): the correct answer is frequently empty, and a
+            # candidate that places only part of the request is wrong
+            every = sorted(w.inv)
+            roomy_all = [(p, rc) for (p, rc) in every
+                         if any(w.has_room(p, rc, x) for x in range(1, 16))]
+            pool = roomy_all or every
+            ncls = len({rc for _p, rc in pool})
+            picks = draw(st.lists(st.sampled_from(pool),
+                                  min_size=min(2, ncls), max_size=4,
+                                  unique_by=lambda x: x[1]))
+            g.resources = {}
+            for (p, rc) in picks:
+                g.resources[rc] = _amount_for(draw, w, rc, True, {p})
+            collective = None
         if not g.resources:
             for rc in draw(st.lists(st.sampled_from(CLASSES), min_size=1,
                                     max_size=3, unique=True)):
